@@ -1,7 +1,9 @@
 /- C14: the evaluators (Properties/C14.lean) and the host-language reading of pasted expression text
-   (Properties/C14Host.lean) and the character-level lexer facts (Properties/C14Lex.lean) audited together -/
+   (Properties/C14Host.lean) and the character-level lexer facts (Properties/C14Lex.lean) and the rendering of lone literals by the C++ generators
+   (Properties/C14Literal.lean) audited together -/
 import ProphyModel.Properties.C14
 import ProphyModel.Properties.C14Host
 import ProphyModel.Properties.C14Lex
 import ProphyModel.Properties.C14CppLex
 import ProphyModel.Properties.TablesTexts
+import ProphyModel.Properties.C14Literal
